@@ -61,6 +61,10 @@ def well_formed(rng, d=None, n_classes=None, variant='plain', dmax=8,
   X = (rng.randn(n, d) * s).dot(R) + shifts[y]
   if variant == 'offset':
     X = X + 1e3
+  elif variant == 'far_offset':
+    # measurements far from the origin (timestamps, absolute positions):
+    # unit spread around 1e8, still fifteen significant bits of spread
+    X = dyadic(rng, X, q=64.0) + 1e8
   elif variant == 'small_scale':
     X = X * 1e-3
   elif variant == 'large_scale':
